@@ -74,6 +74,15 @@ Theorem C03_flush_files : forall H thr bs, 0 < H -> bs <> [] ->
 Proof. exact flush_batches_rows. Qed.
 Print Assumptions C03_flush_files.
 
+(* bufferSchemaKey (the value compared on every write to decide whether a batch may join a
+   buffer) is sound: two well-formed batches with the same key have the same column types, for
+   EVERY column name (plain signature form and length-prefixed form; the two never coincide).
+   Hence batches that share a buffer never make mergeBatches' type assertion fail. *)
+Theorem C03_key_sound : forall b1 b2, wf_batch b1 -> wf_batch b2 ->
+  buffer_schema_key b1 = buffer_schema_key b2 -> types_agree [b1; b2].
+Proof. exact key_sound. Qed.
+Print Assumptions C03_key_sound.
+
 (* (b) protocol ------------------------------------------------------------------------ *)
 
 (* Conservation, for every configuration, every number of writers / workers / FlushAll callers
@@ -84,7 +93,7 @@ Theorem C03_conservation : forall H thr cfg ls s,
   brun H thr cfg binit ls = Some s -> forallb (@no_replay N batch) ls = true ->
   Permutation (all_items s) (accepted s).
 Proof.
-  intros H thr cfg ls s. apply (conservation N.eqb bytes_eqb column_signature batch_rows (bflush H thr) N_eqb_spec' N.eq_dec batch_dec).
+  intros H thr cfg ls s. apply (conservation N.eqb bytes_eqb buffer_schema_key batch_rows (bflush H thr) N_eqb_spec' N.eq_dec batch_dec).
 Qed.
 Print Assumptions C03_conservation.
 
@@ -98,9 +107,10 @@ Theorem C03_stored_files : forall H thr, 0 < H -> forall cfg ls s,
 Proof. exact stored_files_ok. Qed.
 Print Assumptions C03_stored_files.
 
-(* The unchanged Close violates the property: a schedule in which every writer has returned
-   before Close starts, no storage write fails and the queue never overflows ends with Close
-   completed and three of four accepted batches never written (they are still in the queue). *)
+(* About the OLD variant (the Close before 2ed39c6, fix_drain = false), kept as the record of the
+   defect and as the failing input the check replays when the fix is reverted: a schedule in which
+   every writer has returned before Close starts, no storage write fails and the queue never
+   overflows ends with Close completed and three of four accepted batches never written. *)
 Theorem C03_close_refuted :
   exists ls s, brun Hreal thr_real (wit_cfg false) binit ls = Some s /\
     forallb (fun l : label N batch => no_replay l && outcome_ok l) ls = true /\
@@ -110,7 +120,7 @@ Theorem C03_close_refuted :
 Proof. exact close_refuted. Qed.
 Print Assumptions C03_close_refuted.
 
-(* Guarded theorem = the corrected Close (queue drained after the workers exit): for every
+(* The code as it is (Close drains the queue after the workers exit: fix_drain = true): for every
    interleaving without storage failures, once Close has completed with no writer / FlushAll
    activity after it began and no queue overflow, nothing is left in memory and the stored
    files hold exactly the accepted rows (each once). *)
@@ -125,6 +135,26 @@ Theorem C03_flush_close_stores_all : forall H thr, 0 < H -> forall cfg ls s,
                          (flat_map rows_of (map it_b (accepted s))).
 Proof. exact flush_close_stores_all. Qed.
 Print Assumptions C03_flush_close_stores_all.
+
+(* PRIMARY: the property for the code as it is.  For ALL interleavings of any number of writers,
+   flush workers, the age flusher, FlushAll callers and Close (any label list without WAL replay
+   and without injected storage failures), once Close has completed with no writer activity after
+   it began and no queue overflow (C07's subject): every accepted row is stored exactly once; every
+   written file lies in the directory of the hour of all its rows, is time-sorted, and a flush
+   writes at most one file per hour; nothing is left in memory.  The only hypothesis on the inputs
+   is that the accepted batches are well formed (int64 time column, equal column lengths, >= 1 row). *)
+Theorem C03_accepted_rows_stored_once : forall H thr, 0 < H -> forall cfg ls s,
+  brun H thr cfg binit ls = Some s ->
+  forallb (fun l : label N batch => no_replay l && outcome_ok l) ls = true ->
+  fix_drain cfg = true -> phase s = PClosed -> clean s = true -> inputs_ok s ->
+  (forall t r, In (t, r) (dropped s) -> r <> DQueueFull) ->
+  Permutation (accepted s) (stored_items s) /\
+  PermutationA row_equiv (flat_map (fun f => rows_of (snd (snd f))) (stored_kfiles s)) (flat_map rows_of (map it_b (accepted s))) /\
+  (forall r, In r (stored s) ->
+     (forall it, In it (s_items r) -> it_key it = s_key r) /\ NoDup (map fst (s_files r)) /\ Forall (file_ok H) (s_files r)) /\
+  buffers s = [] /\ queue s = [] /\ busy s = [] /\ dropped s = [].
+Proof. exact accepted_rows_stored_once. Qed.
+Print Assumptions C03_accepted_rows_stored_once.
 
 (* non-vacuity: the hypotheses of the guarded theorem are met by a concrete run (the witness
    schedule, continued with the drain) that stores all four batches *)
